@@ -13,6 +13,8 @@ pub mod c06;
 pub mod c07;
 pub mod mutgen;
 pub mod c08;
+pub mod c10;
+pub mod c11;
 pub mod c12;
 pub mod c13;
 pub mod arith;
@@ -45,6 +47,8 @@ pub fn run(what: &str, ctx: &Ctx, _extra: &[String]) -> Option<Report> {
         "C06" => c06::run(ctx),
         "C07" => c07::run(ctx),
         "C08" => c08::run(ctx),
+        "C10" => c10::run(ctx),
+        "C11" => c11::run(ctx),
         "C12" => c12::run(ctx),
         "C13" => c13::run(ctx),
         _ => return None,
